@@ -65,6 +65,21 @@ Proof. repeat split; reflexivity. Qed.
 Lemma pad_len_small n : 0 <= pad_len n < 8.
 Proof. apply pad_len_range. Qed.
 
+(* ---- well-formedness of the primitives involved ---- *)
+Lemma wf_int v : int32 v -> wf_prim any_enum (VInt v) = true.
+Proof. unfold int32. intro H. cbn [wf_prim]. apply andb_true_intro. split; [apply Z.leb_le | apply Z.ltb_lt]; lia. Qed.
+Lemma wf_date v : clock_ok v -> wf_prim any_enum (VDate v) = true.
+Proof. unfold clock_ok. intro H. cbn [wf_prim]. apply andb_true_intro. split; [apply Z.leb_le | apply Z.ltb_lt]; lia. Qed.
+Lemma wf_enum v : reason_ok v -> wf_prim any_enum (VEnum v) = true.
+Proof.
+  unfold reason_ok. intro H. cbn [wf_prim]. unfold any_enum. rewrite andb_true_r.
+  apply andb_true_intro. split; [apply Z.leb_le | apply Z.ltb_lt]; lia.
+Qed.
+Lemma wf_text m : msg_ok m -> wf_prim any_enum (VText m) = true.
+Proof.
+  intros [H1 H2]. cbn [wf_prim]. rewrite H1. cbn [andb]. apply Z.ltb_lt. unfold TWO31, TWO32 in *. lia.
+Qed.
+
 (* ---- the error response ---- *)
 Theorem err_response_wf v ts reason msg :
   ver_ok v -> clock_ok ts -> reason_ok reason -> msg_ok msg ->
@@ -73,18 +88,17 @@ Theorem err_response_wf v ts reason msg :
     /\ dec_err_response b = Some {| ef_version := v; ef_ts := ts; ef_count := 1; ef_status := OPERATION_FAILED;
                                     ef_reason := reason; ef_msg := msg |}.
 Proof.
-  intros [Hma Hmi] Hts Hr [Htxt Hlen].
+  intros [Hma Hmi] Hts Hr Hmsg.
   destruct tags_ok as (TM & TH & TPV & TMA & TMI & TTS & TBC & TBI & TRS & TRR & TRM).
-  unfold int32, clock_ok, reason_ok, TWO31, TWO32, TWO63 in *.
   (* the primitives *)
-  destruct (prim_roundtrip any_enum T_VERSION_MAJOR (VInt (fst v)) TMA) as (bma & Ema & Dma); [cbn; unfold TWO31, TWO32, TWO63; lia|].
-  destruct (prim_roundtrip any_enum T_VERSION_MINOR (VInt (snd v)) TMI) as (bmi & Emi & Dmi); [cbn; unfold TWO31, TWO32, TWO63; lia|].
-  destruct (prim_roundtrip any_enum T_TIME_STAMP (VDate ts) TTS) as (bts & Ets & Dts); [cbn; unfold TWO31, TWO32, TWO63; lia|].
-  destruct (prim_roundtrip any_enum T_BATCH_COUNT (VInt 1) TBC) as (bbc & Ebc & Dbc); [reflexivity|].
-  destruct (prim_roundtrip any_enum T_RESULT_STATUS (VEnum OPERATION_FAILED) TRS) as (brs & Ers & Drs); [reflexivity|].
-  destruct (prim_roundtrip any_enum T_RESULT_REASON (VEnum reason) TRR) as (brr & Err & Drr); [cbn; unfold TWO31, TWO32, TWO63; lia|].
-  destruct (prim_roundtrip any_enum T_RESULT_MESSAGE (VText msg) TRM) as (brm & Erm & Drm);
-    [cbn; rewrite Htxt; unfold TWO31, TWO32 in *; lia|].
+  destruct (prim_roundtrip any_enum T_VERSION_MAJOR (VInt (fst v)) TMA (wf_int _ Hma)) as (bma & Ema & Dma).
+  destruct (prim_roundtrip any_enum T_VERSION_MINOR (VInt (snd v)) TMI (wf_int _ Hmi)) as (bmi & Emi & Dmi).
+  destruct (prim_roundtrip any_enum T_TIME_STAMP (VDate ts) TTS (wf_date _ Hts)) as (bts & Ets & Dts).
+  destruct (prim_roundtrip any_enum T_BATCH_COUNT (VInt 1) TBC eq_refl) as (bbc & Ebc & Dbc).
+  destruct (prim_roundtrip any_enum T_RESULT_STATUS (VEnum OPERATION_FAILED) TRS eq_refl) as (brs & Ers & Drs).
+  destruct (prim_roundtrip any_enum T_RESULT_REASON (VEnum reason) TRR (wf_enum _ Hr)) as (brr & Err & Drr).
+  destruct (prim_roundtrip any_enum T_RESULT_MESSAGE (VText msg) TRM (wf_text _ Hmsg)) as (brm & Erm & Drm).
+  destruct Hmsg as [Htxt Hlen].
   pose proof (enc_prim_len _ _ _ Ema) as Lma. pose proof (enc_prim_len _ _ _ Emi) as Lmi.
   pose proof (enc_prim_len _ _ _ Ets) as Lts. pose proof (enc_prim_len _ _ _ Ebc) as Lbc.
   pose proof (enc_prim_len _ _ _ Ers) as Lrs. pose proof (enc_prim_len _ _ _ Err) as Lrr.
